@@ -109,6 +109,9 @@ let c06 (h : shist) : string list =
       (* expiry timers of partitions that a shrink has dropped keep running: their released events say nothing
          about a partition of the same index that was created and acquired again later *)
       let orphan = Hashtbl.create 8 in
+      (* while CreatePartitions of a re-provisioning runs the published figure is only recomputed by expiries: after a
+         shrink that dropped counted partitions it may still include them until the call returns *)
+      let lag = ref 0 in
       List.iter (fun ln ->
           if ln.inst = k then
             match ln.w with
@@ -124,9 +127,12 @@ let c06 (h : shist) : string list =
                   hits := (Printf.sprintf "c06:partition-count inst=%d CreatePartitions(%s) for shared=%d factor=%d (expected %d)" k n !shared f expect) :: !hits;
                 provisioned := ios n;
                 (* a shrink drops the partitions above the new count *)
+                lag := 0;
                 Hashtbl.iter (fun p cnt -> if p >= ios n then begin
                                     Hashtbl.replace orphan p (cnt + (try Hashtbl.find orphan p with Not_found -> 0));
-                                    Hashtbl.remove counted p end) (Hashtbl.copy counted)
+                                    Hashtbl.remove counted p; incr lag end) (Hashtbl.copy counted)
+            | ["ev"; "provision-done"; _] -> lag := 0
+            | ["ev"; "capacity"; _] -> if h.gen = 2 then lag := 0
             | ["provret"; "4"] -> if ceil_div !shared f <= 500 then hits := (Printf.sprintf "c06:out-of-range inst=%d refused although %d partitions suffice" k (ceil_div !shared f)) :: !hits
             | ["ev"; "allocated"; p] -> Hashtbl.replace counted (ios p) (1 + try Hashtbl.find counted (ios p) with Not_found -> 0)
             | ["ev"; "released"; p] ->
@@ -140,9 +146,9 @@ let c06 (h : shist) : string list =
             | ["sample"; cap; mx] ->
                 let fa = if !factor_applied then f else ic.factor in
                 let expect = !reserved + fa * Hashtbl.length counted in
-                if ios cap <> expect then
+                if ios cap < expect || ios cap > expect + fa * !lag then
                   hits := (Printf.sprintf "c06:capacity inst=%d t=%d Capacity()=%s but reserved %d + factor %d x %d counted partitions = %d" k ln.t cap !reserved fa (Hashtbl.length counted) expect) :: !hits;
-                if ios cap > !reserved + fa * !provisioned then
+                if ios cap > !reserved + fa * (!provisioned + !lag) then
                   hits := (Printf.sprintf "c06:above-provisioned inst=%d t=%d Capacity()=%s with %d partitions provisioned" k ln.t cap !provisioned) :: !hits;
                 let emx = if h.gen = 1 then !reserved + !shared else !reserved + min !shared (fa * 500) in
                 if ios mx <> emx then
